@@ -23,8 +23,8 @@ TRUSTED = c01.TRUSTED[:4] + [
 # the theorems hold from any published boot time, 0 included, with any clock steps (C02_any_boot_full)
 ASSUMPTIONS = list(c01.ASSUMPTIONS)
 MANIFEST = {
-    "level_text": "Machine-checked Lean 4 proof over the identity-machine model shared with C01 (Process._init/_get_ident/create_time/__eq__/__hash__/is_running + _pslinux boot_time/BOOT_TIME/create_time) and a simulated kernel whose published boot time may change: for ALL histories of spawn/exit/reap/PID-reuse/tick/clock-step events and interleaved psutil calls (boot_time(), process_iter(), create_time(), is_running(), signals, setters, object creation at any point), `a == b` holds iff the two objects have the same PID and were built for the same process start (C02_eq_iff_same_incarnation), equal objects hash alike and neither == nor the hash of existing objects ever changes (C02_hash_congr, C02_answers_stable), is_running() is True iff the object's own incarnation is still in the process table, zombie included (C02_isRunning_iff_listed), and once False it stays False (C02_isRunning_sticky, C02_isRunning_false_forever); the ghost field the specification uses is the owner of the PID at construction and never changes afterwards (C02_ghost_meaning, C02_object_constant, end to end: C02_built_for_owner_at_construction). About hash() the property is read one-directionally: equal => same hash, and stability; the converse (same hash => same process) is NOT claimed — no hash function can promise it; in the model the hash is the identity itself, tied to the code by the obligation cfg_identity_shape (hash(self._ident), memoised) and by a stability oracle (hash right after construction = hash at the end of the history); hash classes are compared with the model both ways at model level only. BOOT TIME: no hypothesis — the initial published boot time is any number, 0 included, and clock steps go to any value (C02_any_boot_full: the three clauses for the extracted configuration over all such histories; the theorems above are stated that way). This rests on the obligation cfg_none_test: create_time() takes the cached BOOT_TIME whenever it `is not None` (/repo 29257b1, the repair of the former finding C02-boottime-zero; C02_btime0_as_extracted states that the checked source is the repaired configuration). What-if theorem for the unrepaired truthiness test `BOOT_TIME or boot_time()`: a machine that boots at the epoch caches BOOT_TIME = 0.0, which is falsy, so after a clock step a new Process(pid) of the same live process differs from the old one and is_running() of the old one is False (C02_btime0_counterexample); histories from btime 0 (family x:btime0, the witness in the corpus) are judged by the specification like all others, nothing is tolerated — a revert of the test breaks cfg_none_test and is reported with that concrete history. The Process objects built and yielded by process_iter() are objects of the same histories (the model's process_iter keeps the pid->object cache and `_pids_reused`, builds a Process for every listed PID that is not cached exactly as Process(pid) does, appends it to the object list and returns the (pid, index) handles it yields), so all of the above quantifies over them and over pairs mixing both kinds; in addition a sweep never alters an existing object (C02_iter_keeps_objects), a yielded handle is a cache entry as it was or a fresh object built for the current owner of the PID (C02_iter_ghost_meaning) and always names an object of that PID (C02_iter_handles_valid). 'Any other psutil call in between': oneshot() entry/exit and the other public calls of the histories (wait(0), as_dict, name, status, cpu_times, str, username, children, pids(), pid_exists(), cpu_percent(), memory_info(), cmdline(), !=, set()/dict membership, == with foreign types) are the identity IN THE MODEL by definition (C02_oneshot_identity is `rfl`); that they leave the answers alone is observed by the correspondence on the real code, and cfg_identity_shape pins that no other function stores to _ident/_hash/_gone/_pid_reused. Objects of Process subclasses and psutil.Popen objects over a listed PID are exercised by the correspondence (same _init; mixed-class pairs) but are not separate objects of the model; Popen over an already reaped child ((pid, None) identity via _ignore_nsp) and objects returned by parent()/children()/parents()/wait_procs() are outside model and correspondence. The histories also contain permission changes (the kernel refusing a PID with EPERM/EACCES): a refused signal or setter raises AccessDenied and sets no sticky flag, so every answer above is unaffected. Outside the property's quantifier (characterisation, not a finding): when /proc/pid/stat cannot be opened (hidepid mounts, LSMs) Process._init keeps `_ident = (pid, None)`; the model transcribes this and is compared with the real code on such histories; proved for any state: two objects with unknown start are equal iff they have the same PID and never equal an object with a known start (C02_eq_unknown_start), is_running() of an object with unknown start is True iff the PID is listed and its current holder is unreadable too (C02_isRunning_unknown_start), Process(pid) then yields exactly that object without touching BOOT_TIME (C02_unknown_start_meaning); consequently the statements of C02_eq_iff_same_incarnation / C02_isRunning_iff_listed do not extend to histories with unreadable stat files (C02_unknown_start_counterexample, witnesses replayed on the real code). As an extra model-correspondence observable (outside the property's statement, no spec-level judgement) the status word of str(p)/repr(p) is transcribed as it is and compared with the implementation (C02_status_terminated_sound, C02_status_listed, C02_status_stale_counterexample). Tie: ast-extracted facts (BOOT_TIME written once and nowhere else in the package, the cached value flows into create_time()'s result, shapes of __eq__/__ne__/__hash__, every store to the identity attributes; all extractors total) + differential run of real psutil.Process objects over a fake procfs.",
-    "level_note": "Trusted: Lean kernel + {propext, Classical.choice, Quot.sound}; the translator; the correspondence harness; the simulated kernel/fake procfs; atomic calls; create times as exact integers (doubles in the implementation); hypotheses: /proc/pid/stat always readable and no PID recycled within one clock tick (what happens otherwise is characterised, not claimed), no hypothesis on the boot time (any value, 0 included, any clock step: obligation cfg_none_test, /repo 29257b1); hash(): equal => same hash and stability only; Process subclass / Popen objects by correspondence only; OpenBSD/NetBSD zombie branch of __eq__ not modelled (Linux layer).",
+    "level_text": "Machine-checked Lean 4 proof over the identity-machine model shared with C01 (Process._init/_get_ident/create_time/__eq__/__hash__/is_running + _pslinux boot_time/BOOT_TIME/create_time) and a simulated kernel whose published boot time may change: for ALL histories of spawn/exit/reap/PID-reuse/tick/clock-step events and interleaved psutil calls (boot_time(), process_iter(), create_time(), is_running(), signals, setters, object creation at any point), `a == b` holds iff the two objects have the same PID and were built for the same process start (C02_eq_iff_same_incarnation), equal objects hash alike and neither == nor the hash of existing objects ever changes (C02_hash_congr, C02_answers_stable), is_running() is True iff the object's own incarnation is still in the process table, zombie included (C02_isRunning_iff_listed), and once False it stays False (C02_isRunning_sticky, C02_isRunning_false_forever); the ghost field the specification uses is the owner of the PID at construction and never changes afterwards (C02_ghost_meaning, C02_object_constant, end to end: C02_built_for_owner_at_construction). About hash() the property is read one-directionally: equal => same hash, and stability; the converse (same hash => same process) is NOT claimed — no hash function can promise it; in the model the hash is the identity itself, tied to the code by the obligation cfg_identity_shape (hash(self._ident), memoised) and by a stability oracle (hash right after construction = hash at the end of the history); hash classes are compared with the model both ways at model level only. BOOT TIME: no hypothesis — the initial published boot time is any number, 0 included, and clock steps go to any value (C02_any_boot_full: the three clauses for the extracted configuration over all such histories; the theorems above are stated that way). This rests on the obligation cfg_none_test: create_time() takes the cached BOOT_TIME whenever it `is not None` (/repo 29257b1, the repair of the former finding C02-boottime-zero; C02_btime0_as_extracted states that the checked source is the repaired configuration). What-if theorem for the unrepaired truthiness test `BOOT_TIME or boot_time()`: a machine that boots at the epoch caches BOOT_TIME = 0.0, which is falsy, so after a clock step a new Process(pid) of the same live process differs from the old one and is_running() of the old one is False (C02_btime0_counterexample); histories from btime 0 (family x:btime0, the witness in the corpus) are judged by the specification like all others, nothing is tolerated — a revert of the test breaks cfg_none_test and is reported with that concrete history. The Process objects built and yielded by process_iter() are objects of the same histories (the model's process_iter keeps the pid->object cache and `_pids_reused`, builds a Process for every listed PID that is not cached exactly as Process(pid) does, appends it to the object list and returns the (pid, index) handles it yields), so all of the above quantifies over them and over pairs mixing both kinds; in addition a sweep never alters an existing object (C02_iter_keeps_objects), a yielded handle is a cache entry as it was or a fresh object built for the current owner of the PID (C02_iter_ghost_meaning) and always names an object of that PID (C02_iter_handles_valid). 'Any other psutil call in between': oneshot() entry/exit and the other public calls of the histories (wait(0), as_dict, name, status, cpu_times, str, username, children, pids(), pid_exists(), cpu_percent(), memory_info(), cmdline(), !=, set()/dict membership, == with foreign types) are the identity IN THE MODEL by definition (C02_oneshot_identity is `rfl`); that they leave the answers alone is observed by the correspondence on the real code, and cfg_identity_shape pins that no other function stores to _ident/_hash/_gone/_pid_reused. Objects of Process subclasses and psutil.Popen objects over a listed PID are exercised by the correspondence (same _init; mixed-class pairs) but are not separate objects of the model; Popen over an already reaped child ((pid, None) identity via _ignore_nsp) and objects returned by parent()/children()/parents()/wait_procs() are outside model and correspondence. The histories also contain permission changes (the kernel refusing a PID with EPERM/EACCES): a refused signal or setter raises AccessDenied and sets no sticky flag, so every answer above is unaffected. Outside the property's quantifier (characterisation, not a finding): when /proc/pid/stat cannot be opened (hidepid mounts, LSMs) Process._init keeps `_ident = (pid, None)`; the model transcribes this and is compared with the real code on such histories; proved for any state: two objects with unknown start are equal iff they have the same PID and never equal an object with a known start (C02_eq_unknown_start), is_running() of an object with unknown start is True iff the PID is listed and its current holder is unreadable too (C02_isRunning_unknown_start), Process(pid) then yields exactly that object without touching BOOT_TIME (C02_unknown_start_meaning); consequently the statements of C02_eq_iff_same_incarnation / C02_isRunning_iff_listed do not extend to histories with unreadable stat files (C02_unknown_start_counterexample, witnesses replayed on the real code). As an extra model-correspondence observable (outside the property's statement, no spec-level judgement) the status word of str(p)/repr(p) is transcribed as it is and compared with the implementation (C02_status_terminated_sound, C02_status_listed, C02_status_stale_counterexample). TRANSIENT READ FAILURES (seeded round 5): reads of /proc/<pid>/stat failing with an OSError that is neither ENOENT/ESRCH nor EACCES/EPERM (EMFILE/ENFILE: the caller is out of descriptors, ENOMEM, EIO, ...; at open() or at read(); any PID, any time, several at once) are an input of the histories (Model/C02Fault.lean: fault set, `stepF`, sweeps cut short by the failing read keep what they had built in the cache): is_running() then leaves with the OS error exactly when it has to read a failing stat file and otherwise tells the truth (C02_fault_isRunning_exact; spec form RightOrWithheld: C02_fault_isRunning_right_or_withheld — never False for a listed process, never True for one that left), nothing sticks once the reads work again (C02_fault_no_trace), False ever after even with failing reads (C02_fault_never_true_after_gone), == / hash() are untouched (C02_fault_eq_hash, C02_fault_object_constant), a call that left with the OS error stored nothing (C02_fault_oserror_stores_nothing) and a cut-short sweep alters no existing object (C02_fault_sweep_keeps_objects); these rest on the obligation cfg_stat_fault_propagates (facts statReadShape, catShape, wrapHandlers, isRunningHandlers, initHandlers: no stage between the read and the caller of is_running() swallows more than it did); the what-if configuration in which the failure is swallowed into NoSuchProcess refutes both full statements (C02_fault_swallowed_counterexample). The correspondence injects the errors into `open` as psutil._common sees it (families x:fault, exhaustive:fault). Tie: ast-extracted facts (BOOT_TIME written once and nowhere else in the package, the cached value flows into create_time()'s result, shapes of __eq__/__ne__/__hash__, every store to the identity attributes; all extractors total) + differential run of real psutil.Process objects over a fake procfs.",
+    "level_note": "Trusted: Lean kernel + {propext, Classical.choice, Quot.sound}; the translator; the correspondence harness; the simulated kernel/fake procfs; atomic calls; create times as exact integers (doubles in the implementation); hypotheses: /proc/pid/stat always readable and no PID recycled within one clock tick (what happens otherwise is characterised, not claimed), no hypothesis on the boot time (any value, 0 included, any clock step: obligation cfg_none_test, /repo 29257b1); transient read failures: only of /proc/<pid>/stat (the one file the identity machinery reads), injected at open()/read() of psutil._common.open; hash(): equal => same hash and stability only; Process subclass / Popen objects by correspondence only; OpenBSD/NetBSD zombie branch of __eq__ not modelled (Linux layer).",
     "technique": "Lean 4 invariant proof by induction over event histories (ghost incarnation ids, one frozen boot time) + translator-fed proof obligation + differential correspondence on generated and exhaustively enumerated short histories",
     "design_ref": "DESIGN.md §5 C02",
 }
